@@ -798,6 +798,153 @@ fn scaling(thorough: bool) -> Stats {
     st
 }
 
+/// Stateful user functions and clone independence: a context holds a function `next` whose closure owns a
+/// counter that its own `Clone` deep-copies. Every history of <= `depth` operations over up to three contexts
+/// — call `next` through context i (by `call_function`, by `eval_with_context("next()")`, by
+/// `eval_with_context_mut("x = next(); x")`), clone context i into a new context, `clone_from` context i into
+/// context j — is executed on the real contexts and on a model in which every context has a counter of its
+/// own, copied at the moment of the clone: "clones are independent of the original" includes the state the
+/// registered functions own (a `Function` clone that shares the closure lets calls through one context show
+/// in the other). Stateless exploration: every history is executed from the start.
+fn stateful_function_clones(depth: usize) -> Stats {
+    struct Ctr(Mutex<i64>);
+    impl Clone for Ctr {
+        fn clone(&self) -> Self {
+            Ctr(Mutex::new(*self.0.lock().unwrap()))
+        }
+    }
+    impl Ctr {
+        fn bump(&self) -> i64 {
+            let mut g = self.0.lock().unwrap();
+            *g += 1;
+            *g
+        }
+    }
+    fn fresh() -> HCtx {
+        let ctr = Ctr(Mutex::new(0));
+        let mut c = HCtx::new();
+        c.set_function(
+            "next".into(),
+            // (a method call, so that the closure owns the whole `Ctr` and clones it through `Ctr::clone`)
+            Function::new(move |_| Ok(Value::Int(ctr.bump()))),
+        )
+        .unwrap();
+        c
+    }
+    #[derive(Clone, Copy, Debug)]
+    enum Op {
+        Call(usize, u8),
+        CloneOf(usize),
+        CloneFrom(usize, usize),
+    }
+    let show = |o: &Op| match o {
+        Op::Call(i, 0) => format!("c{}.call_function(\"next\", &Value::Empty)", i),
+        Op::Call(i, 1) => format!("eval_with_context(\"next()\", &c{})", i),
+        Op::Call(i, _) => format!("eval_with_context_mut(\"x = next(); x\", &mut c{})", i),
+        Op::CloneOf(i) => format!("push c{}.clone()", i),
+        Op::CloneFrom(i, j) => format!("c{}.clone_from(&c{})", j, i),
+    };
+    let mut st = Stats::new();
+    // executes one history; returns the first divergence
+    let run = |h: &[Op]| -> Option<(String, String)> {
+        let mut real: Vec<HCtx> = vec![fresh()];
+        let mut model: Vec<i64> = vec![0];
+        for (k, op) in h.iter().enumerate() {
+            match *op {
+                Op::Call(i, route) => {
+                    model[i] += 1;
+                    let got = match route {
+                        0 => guarded(|| real[i].call_function("next", &Value::Empty)),
+                        1 => guarded(|| evalexpr::eval_with_context("next()", &real[i])),
+                        _ => {
+                            let c = &mut real[i];
+                            guarded(|| evalexpr::eval_with_context_mut("x = next(); x", c))
+                        },
+                    };
+                    let got = match got {
+                        Ok(r) => format!("{:?}", r),
+                        Err(p) => format!("panic at {}: {}", p.location, p.message),
+                    };
+                    let want = format!("Ok(Int({}))", model[i]);
+                    if got != want {
+                        return Some((format!("step {}: {} (every context counts on its own; a clone starts from the count of its source)", k + 1, want), format!("step {}: {}", k + 1, got)));
+                    }
+                },
+                Op::CloneOf(i) => {
+                    let c = real[i].clone();
+                    real.push(c);
+                    model.push(model[i]);
+                },
+                Op::CloneFrom(i, j) => {
+                    // clone_from needs two distinct borrows
+                    let (a, b) = if i < j {
+                        let (l, r) = real.split_at_mut(j);
+                        (&l[i], &mut r[0])
+                    } else {
+                        let (l, r) = real.split_at_mut(i);
+                        (&r[0], &mut l[j])
+                    };
+                    b.clone_from(a);
+                    model[j] = model[i];
+                },
+            }
+        }
+        None
+    };
+    fn rec(h: &mut Vec<Op>, n: usize, depth: usize, f: &mut dyn FnMut(&[Op])) {
+        if !h.is_empty() {
+            f(h);
+        }
+        if h.len() == depth {
+            return;
+        }
+        let mut ops: Vec<Op> = Vec::new();
+        for i in 0..n {
+            for r in 0..3u8 {
+                ops.push(Op::Call(i, r));
+            }
+            if n < 3 {
+                ops.push(Op::CloneOf(i));
+            }
+            for j in 0..n {
+                if i != j {
+                    ops.push(Op::CloneFrom(i, j));
+                }
+            }
+        }
+        for o in ops {
+            h.push(o);
+            rec(h, if matches!(o, Op::CloneOf(_)) { n + 1 } else { n }, depth, f);
+            h.pop();
+        }
+    }
+    let mut h: Vec<Op> = Vec::new();
+    let mut failed = false;
+    rec(&mut h, 1, depth, &mut |hist| {
+        if failed {
+            return;
+        }
+        st.evaluations += hist.len() as u64;
+        st.count("stateful-function-clone-histories");
+        if hist.iter().any(|o| !matches!(o, Op::Call(..))) && hist.iter().filter(|o| matches!(o, Op::Call(..))).count() >= 2 {
+            st.count("stateful-function-clone-histories/with-a-clone-and-two-calls");
+        }
+        if let Some((expected, actual)) = run(hist) {
+            failed = true;
+            let lines: Vec<String> = hist.iter().map(|o| show(o)).collect();
+            st.violation(Violation {
+                property: ID,
+                kind: "stateful-function-clone-independence".into(),
+                input: json!({"codes": [], "history": lines, "family": "stateful-function-clones"}),
+                expected,
+                actual,
+                test: test_wrap("c04_replay", &format!("    // c0 holds a user function `next` whose closure owns a counter (its Clone copies the count); then:\n{}    panic!(\"see the history above\");\n", lines.iter().map(|l| format!("    // {}\n", l)).collect::<String>())),
+            });
+        }
+    });
+    st
+}
+
 /// The `context_map!` macro is a second way "through the API" to build a context: every entry kind (`int`,
 /// `float`, a plain value, a function) in every position (only, first, middle, last), with and without the
 /// trailing comma, and a retyped duplicate key; the result must be the context the equivalent set_value /
@@ -945,12 +1092,13 @@ pub fn run(cfg: &Cfg) -> Report {
     }
     stats.merge(scaling(cfg.tier == Tier::Thorough));
     stats.merge(context_map_forms());
+    stats.merge(stateful_function_clones(cfg.tier.pick(4, 5)));
     // distinct non-trivial = unique abstract states reached (each a distinct context content)
     stats.add("nontrivial-distinct", stats.states);
     Report {
         property: ID,
         level: "model_checking",
-        rule: format!("explicit-state breadth-first search (stateright) from the empty context; a state is the real HashMapContext paired with the abstract map model, merged by (sorted observation of the real context, model); every transition calls the real API on a clone (set_value; `n = lit`; `n op= lit` for the 8 op-assign operators x one right-hand side per type; `n op= lit op lit` with the operator's own base operator on the right-hand side; `n = m`; `n = unbound`; clear_variables / clear_functions / clear; set_function; builtin switch; clone-and-continue) over names {{a, b}} (+ never-bound c), 15 values (ints 1, 2; floats 1.5, 1.0, 0.0, -0.0, NaN; strings `s` and `a` (the latter spells a variable name); two booleans; tuples of length 0/1/2; Empty); after every transition the return value and the complete observation (get_value of every name, both listings, call_function of every function name, builtin switch, reads through eval_with_context) are compared with the model, and the parent state must be unchanged. Closed sub-machine to closure; with op-assign inside a magnitude box (|int| <= 8, strings <= 3 bytes, closed float set): transitions leaving the box are executed and checked but not expanded; plus all unmerged histories of depth {depth} over the full action alphabet; plus 23 forms of the context_map! macro (every entry kind in every position, with and without the trailing comma, retyped duplicate keys) against the equivalent API calls; scaling families: contexts with n variables of cycling types (set, listed, looked up, retyped, cloned, cleared) and n rounds of op-assigns on one variable, n in 1..20 and up to 129 / 1..40 and up to 400. Non-trivial/distinct = unique abstract states"),
+        rule: format!("explicit-state breadth-first search (stateright) from the empty context; a state is the real HashMapContext paired with the abstract map model, merged by (sorted observation of the real context, model); every transition calls the real API on a clone (set_value; `n = lit`; `n op= lit` for the 8 op-assign operators x one right-hand side per type; `n op= lit op lit` with the operator's own base operator on the right-hand side; `n = m`; `n = unbound`; clear_variables / clear_functions / clear; set_function; builtin switch; clone-and-continue) over names {{a, b}} (+ never-bound c), 15 values (ints 1, 2; floats 1.5, 1.0, 0.0, -0.0, NaN; strings `s` and `a` (the latter spells a variable name); two booleans; tuples of length 0/1/2; Empty); after every transition the return value and the complete observation (get_value of every name, both listings, call_function of every function name, builtin switch, reads through eval_with_context) are compared with the model, and the parent state must be unchanged. Closed sub-machine to closure; with op-assign inside a magnitude box (|int| <= 8, strings <= 3 bytes, closed float set): transitions leaving the box are executed and checked but not expanded; plus all unmerged histories of depth {depth} over the full action alphabet; plus 23 forms of the context_map! macro (every entry kind in every position, with and without the trailing comma, retyped duplicate keys) against the equivalent API calls; plus every history of <= 4 (quick) / 5 (thorough) operations {{call through context i by call_function / eval_with_context / an assigning eval_with_context_mut; clone context i; clone_from context i into context j}} over up to three contexts holding a user function whose closure owns a counter that its Clone deep-copies, against a model with one counter per context (clone independence includes the state registered functions own); scaling families: contexts with n variables of cycling types (set, listed, looked up, retyped, cloned, cleared) and n rounds of op-assigns on one variable, n in 1..20 and up to 129 / 1..40 and up to 400. Non-trivial/distinct = unique abstract states"),
         nontrivial_set: "counter:nontrivial-distinct",
         exhaustive: true,
         bound_completed: format!("closed machine: closure; boxed machine: {}; unmerged histories: depth {}", match cfg.tier { Tier::Quick => "depth 3", Tier::Thorough => "fixpoint of the box" }, depth),
@@ -997,6 +1145,7 @@ pub fn replay(case: &J) -> i32 {
         // a scaling-family case: the families are cheap, re-run them
         st = scaling(true);
         st.merge(context_map_forms());
+        st.merge(stateful_function_clones(4));
         return super::replay_verdict(ID, &st);
     }
     for c in codes {
